@@ -125,7 +125,9 @@ def check(case):
 
 
 def taylor_cases(tier, seed):
-    for n in range(0, 9 if tier == "quick" else 13):
+    # (orders >= 9 with min_order 1 need the 9th Taylor coefficient - the first one a 15 digit float
+    #  does not determine)
+    for n in range(0, 10 if tier == "quick" else 13):
         for m in (1, 2, 3):
             yield {"n": n, "m": m}
 
@@ -152,7 +154,7 @@ CHECKS = {
     "expand_S_taylor.binomial_series": {
         "function": "adcgen.intermediate_states:IntermediateStates.expand_S_taylor",
         "cases": taylor_cases, "check": taylor_check,
-        "bound": "order < 9 (13), min_order 1..3: [(binomial(-1/2, k), compositions(n, k, m))]"},
+        "bound": "order < 10 (13), min_order 1..3: [(binomial(-1/2, k), compositions(n, k, m))]"},
     "overlap_isr.orthonormal": {
         "function": "adcgen.intermediate_states:IntermediateStates.precursor",
         "cases": cases, "check": check,
